@@ -158,7 +158,7 @@ Inductive aoh_opt := AohDeep | AohDpos | AohKey | AohPosition | AohValue.
 Record rule := mkrule { r_node : node; r_parent : option node; r_ref : pyval; r_text : string }.
 
 Record dcfg := mkdcfg {
-  has_config : bool;                 (* self.config is not None *)
+  d_has_config : bool;                 (* self.config is not None *)
   c_rules : list rule;
   c_keys : list rule;
   arg_arrays : option string;        (* args.arrays when the attribute exists *)
@@ -178,7 +178,7 @@ Definition opt_node_eq (a b : option node) : bool :=
 
 (* _get_config_for *)
 Definition get_config_for (c : dcfg) (section : list rule) (nc : coords) : string :=
-  if negb (has_config c) then ""
+  if negb (d_has_config c) then ""
   else
     let '(n, p, r) := nc in
     match find (fun ru => node_eq (r_node ru) n && opt_node_eq (r_parent ru) p && py_eq (r_ref ru) r) section with
@@ -218,7 +218,7 @@ Definition array_diff_mode (c : dcfg) (nc : coords) : outcome arr_opt :=
   else match opt_truthy (arg_arrays c) with
        | Some s => arr_from_str s
        | None =>
-           match (if has_config c then def_arrays c else None) with
+           match (if d_has_config c then def_arrays c else None) with
            | Some s => arr_from_str s
            | None => Ok ArrPosition
            end
@@ -230,7 +230,7 @@ Definition aoh_diff_mode (c : dcfg) (nc : coords) : outcome aoh_opt :=
   else match opt_truthy (arg_aoh c) with
        | Some s => aoh_from_str s
        | None =>
-           match (if has_config c then def_aoh c else None) with
+           match (if d_has_config c then def_aoh c else None) with
            | Some s => aoh_from_str s
            | None => Ok AohPosition
            end
